@@ -29,7 +29,7 @@ ENGINES = [
 # id -> dict(level, design, text, note, technique)
 CHECKS = {
     "C01": dict(level="model_checking", design="4/C01",
-                text="Every batch of the stated small-scope domain (all fit/no-fit boundary lengths x message types x batch sizes 1..3 x 21 (min,max) contexts, typed prototypes as singles/pairs/triples x 5 contexts x 3 encode overloads, header-field sweeps, 65535-byte extremes) is encoded by a fresh real Encoder and decoded by a fresh real Decoder; the decoded packets are compared field by field with the inputs by harness code. Exhaustive within the bounds, no sampling.",
+                text="Every batch of the stated small-scope domain (all fit/no-fit boundary lengths x message types x batch sizes 1..3 x 21 small (min,max) contexts and batch sizes 1..2 x 9 mid-size/realistic contexts, each also on an encoder that already made one of six kinds of earlier call, typed prototypes as singles/pairs/triples x 5 contexts x 3 encode overloads, header-field sweeps, 65535-byte extremes) is encoded by a real Encoder and decoded by a fresh real Decoder; the decoded packets are compared field by field with the inputs by harness code. Exhaustive within the bounds, no sampling.",
                 note="Bounds: lengths around each boundary, one content pattern per packet; compares through public getters only; oracle code shares nothing with the library.",
                 technique="bounded exhaustive enumeration of executions of the real encoder+decoder (small-scope), independent field-by-field oracle"),
     "C07": dict(level="model_checking", design="4/C07",
@@ -57,7 +57,7 @@ CHECKS = {
                 note="'Random beyond the bound' of the quantifier text is deliberately not done (sampling is a different family); the completed bound is reported.",
                 technique="exhaustive fault-sequence enumeration up to a bound on the real decoder"),
     "C17": dict(level="model_checking", design="4/C17",
-                text="68-symbol state-relative frame alphabet over 4 endpoints: unmerged tree of copied real Decoders (depth 3 quick / 4 thorough) and BFS (depth 9 / 11) merged on (model state, dump of the decoder's pending table); after every transition the set of endpoints with pending data must equal the set of open messages and buffered bytes must not exceed header + declared segment bytes received.",
+                text="68-symbol state-relative frame alphabet over 4 endpoints: unmerged tree of copied real Decoders (depth 3 quick / 4 thorough; depth 5 / 6 over a sharp 17-symbol sub-alphabet) and BFS (depth 9 / 11) merged on (model state, dump of the decoder's pending table); after every transition the set of endpoints with pending data must equal the set of open messages and buffered bytes must not exceed header + declared segment bytes received.",
                 note="Uses the guarded read-only hook Decoder::verifPending(); a header-only frame is modelled as carrying nothing.",
                 technique="explicit-state model checking (tree + BFS with state merging) of the real decoder against a reference model; invariant checked in every state"),
     "C18": dict(level="model_checking", design="4/C18",
@@ -65,7 +65,7 @@ CHECKS = {
                 note="Purely differential; counts as in C05 + C17.",
                 technique="explicit-state exploration with a differential (projection) oracle on real decoder objects"),
     "C02": dict(level="model_checking", design="4/C02",
-                text="Every way the decoders' control flow can be steered is enumerated: ~120 well-formed CMP and TECMP seed frames x every truncation x every single-byte and adjacent-byte-pair corruption over boundary value sets x extensions up to 64 KiB x 4 decoder pre-states, a TECMP sweep over all 256 message types x data types x payload lengths x length bytes, and all ordered pairs (thorough: triples) of a sub-corpus on one decoder. Each execution runs the real code under ASan/UBSan in a fork sandbox with a watchdog; input unchanged, <= len/12 packets, packets non-null with payload, and a digest of every getter, byte and typed accessor must be unchanged after the input is freed, ten more frames are decoded and the decoder is destroyed.",
+                text="Every way the decoders' control flow can be steered is enumerated: ~140 well-formed CMP and TECMP seed frames x every truncation x every single-byte and adjacent-byte-pair corruption over boundary value sets x extensions up to 64 KiB x 4 decoder pre-states, a TECMP sweep over all 256 message types x data types x payload lengths x length bytes, all ordered pairs (thorough: triples) of a sub-corpus on one decoder, and all segment-size sequences F(a) [I(b)] L(c) over a size set whose totals cross 64 KiB. Each execution runs the real code under ASan/UBSan in a fork sandbox with a watchdog; input unchanged, <= len/12 packets, packets non-null with payload, and a digest of every getter, byte and typed accessor must be unchanged after the input is freed, ten more frames are decoded and the decoder is destroyed.",
                 note="Not all byte strings: exhaustive over the control-relevant field space of the seeds (the decoder only copies other bytes). UBSan alignment/vptr/nonnull-attribute sub-checks are off on purpose.",
                 technique="bounded exhaustive enumeration of inputs x decoder histories executed on the real code under sanitizers (fork sandbox, watchdog)"),
     "C03": dict(level="model_checking", design="4/C03",
@@ -81,19 +81,19 @@ CHECKS = {
                 note="CAN CRC values, frames with bytes after the declared payload, partial bus-status entries and status frames with data type FF00 are outside what the property fixes and are only checked for memory safety (C02).",
                 technique="bounded exhaustive enumeration of inputs against an independent reference conversion"),
     "C11": dict(level="model_checking", design="4/C11",
-                text="Table-driven: 23 classes, ~230 setter/getter pairs; for every field ALL values (<= 16 bits) or single bits + byte lanes + extremes (wider), from default / all-zero / all-ones / counting prior object states (payload classes also with data bytes): after set, get returns the value, every non-overlapping field's getter is unchanged and raw bytes are unchanged outside the bits an independent layout table assigns to the field; booleans additionally through set/clear sequences.",
+                text="Table-driven: 24 classes, ~235 setter/getter pairs; for every field ALL values (<= 16 bits) or single bits + byte lanes + extremes + values relative to the current state (wider), from default / all-zero / all-ones / counting prior object states (payload classes also with data bytes): after set, get returns the value, every non-overlapping field's getter is unchanged and raw bytes are unchanged outside the bits an independent layout table assigns to the field; booleans additionally through set/clear sequences, and every flag setter with every mask value (incl. multi-bit masks) from every prior flag state.",
                 note="Wide fields are covered bit-lane-wise, which decides bit-sliced accessors (byte swaps, shifts, masks); the overlap relation (legitimate aliases) is derived from the independent layout table.",
                 technique="bounded exhaustive enumeration class x field x value x prior state on the real objects"),
     "C12": dict(level="model_checking", design="4/C12",
-                text="Same table, independent columns (offset, width, bit position written from the protocol layouts): API writes into default objects must produce the hand-laid-out big-endian image, hand-laid-out images must be read back by the getters from zero/ones/counting backgrounds, reserved bits are zero in default objects, header sizes are the standard ones; Packet serialisers are compared with hand-laid-out images.",
+                text="Same table, independent columns (offset, width, bit position written from the protocol layouts): API writes into default, zero, ones and counting objects must produce the hand-laid-out big-endian image, hand-laid-out images must be read back by the getters from zero/ones/counting backgrounds, reserved bits are zero in default objects, header sizes are the standard ones; Packet serialisers are compared with hand-laid-out images.",
                 note="The order of the two TECMP temperature bytes could not be cross-checked and is listed as an assumption in the evidence.",
                 technique="bounded exhaustive enumeration class x field x value against an independent layout table"),
     "C13": dict(level="model_checking", design="4/C13",
-                text="Every builder (CAN/CAN-FD/LIN all lengths 0..255, Ethernet/analog boundary lengths to 65529, capture-module 5^4 string combinations x vendor lengths, interface stream-id counts x vendor lengths) after each kind of prior contents; checked: getters, preserved header fields, independent wire image incl. NUL termination and even padding, DLC table, own validity check, real Decoder, raw bytes equal to those of a fresh object with the same final content.",
+                text="Every builder (CAN/CAN-FD all lengths 0..255 x 4 header variants incl. the RTR/RRS bit set first, LIN all lengths 0..255, Ethernet/analog boundary lengths to 65529, capture-module 5^4 string combinations x vendor lengths, interface stream-id counts x vendor lengths) after each kind of prior contents; checked: getters, preserved header fields, independent wire image incl. NUL termination and even padding, DLC table, own validity check, real Decoder, raw bytes equal to those of a fresh object with the same final content.",
                 note="DLC is only constrained for representable lengths.",
                 technique="bounded exhaustive enumeration of builder inputs x prior object contents with independent layout oracle and fresh-object differential"),
     "C14": dict(level="model_checking", design="4/C14",
-                text="All ordered (source, target) pairs of a 16-packet pool (payload-less, zero-length payloads, equal-looking, typed, decoder-produced) x copy/move construction and assignment, self assignments, all two-assignment sequences, equality laws on all pairs; the same for 9 Payload and 6 TECMP::Payload objects; observation through all getters under ASan in forked workers.",
+                text="All ordered (source, target) pairs of a 24-packet pool (payload-less, zero-length payloads, equal-looking, one member per single-field difference, typed, decoder-produced) x copy/move construction and assignment, self assignments, all two-assignment sequences, equality laws on all pairs; the same for 9 Payload and 6 TECMP::Payload objects; observation through all getters under ASan in forked workers.",
                 note="Equality must agree with field-by-field comparison only for non-empty payloads (as the property states).",
                 technique="exhaustive enumeration of object pairs x value operations (2-step histories) on the real classes"),
     "C16": dict(level="model_checking", design="4/C16",
